@@ -113,10 +113,16 @@ class ElfGen(object):
             if prev is not None and kind in ("adjacent-byte", "share-page", "next-page") and r.random() < 0.6:
                 off = prev["offset"] + (va - prev["vaddr"])       # same address-to-offset delta: one contiguous file mapping
                 okind = "same-delta"
-            elif ok < 0.88:
+            elif ok < 0.76:
                 base = r.randrange(0, max(1, nbody // unit)) * unit
                 off = base + (va & m) if pow2 else (base & ~m) + (va & m)
                 okind = "congruent"
+            elif ok < 0.88:
+                # unaligned segment (p_align 0/1): any file offset the loader can seek to, not congruent to the address
+                off = (va & m) + r.randrange(0, max(1, nbody - (va & m)))
+                if (off & m) == (va & m):
+                    off += 1
+                okind = "unaligned-offset"
             elif ok < 0.94:
                 off = r.randrange(0, nbody)
                 okind = "incongruent"
@@ -130,7 +136,8 @@ class ElfGen(object):
                 okind += "+memsz<filesz"
             else:
                 ms = fs + bss
-            p = dict(type=PT_LOAD, offset=off, vaddr=va, filesz=fs, memsz=ms, align=ps if r.random() < 0.8 else 1)
+            p = dict(type=PT_LOAD, offset=off, vaddr=va, filesz=fs, memsz=ms,
+                     align=r.choice([0, 1]) if okind.startswith("unaligned-offset") else (ps if r.random() < 0.8 else 1))
             segs.append(p)
             kinds.append("%s/%s%s" % (kind, okind, "/bss" if ms > fs else ""))
             prev = p
